@@ -19,7 +19,7 @@ fn n(kind: &str, owner: usize, aname: &str, how: &str, path: &[i64], text: &str)
 
 // (namespace declarations written AFTER an ordinary attribute: in document order an element's namespace nodes still come
 // before its attributes, on a fresh parse and after any renumbering)
-const DOC: &str = "<!DOCTYPE r><?p d?><r y=\"1\" xmlns:p=\"u\" z=\"2\"><a><b/>uvw<c x=\"3\" xmlns:q=\"v\"/></a>txyz<!--k--><d><e/></d></r>";
+const DOC: &str = "<!DOCTYPE r><?p d?><r y=\"1\" xmlns:p=\"u\" z=\"2\"><a><b/>uvw<c x=\"3\" xmlns:q=\"v\"/></a>txyz<!--k--><d><e/></d></r><!--z--><?e f?>";
 
 /// 30 nodes: a parsed document with every movable kind, factory-made nodes, a foreign document.
 pub fn big_pool() -> J {
@@ -55,6 +55,9 @@ pub fn big_pool() -> J {
         n("elem", 1, "", "create", &[], "g"),        // 28
         n("text", 1, "", "create", &[], "v"),        // 29
         n("comment", 1, "", "create", &[], "m"),     // 30
+        // the epilog: what is appended to the document element still comes BEFORE these
+        n("comment", 1, "", "parsed", &[4], ""),     // 31
+        n("pi", 1, "", "parsed", &[5], ""),          // 32
     ];
     // slots for the nodes that split_text and Attr.value := .. create
     for _ in 0..7 {
@@ -233,6 +236,8 @@ const BATTERY: &[&str] = &[
     "count((/r/@* | /r/namespace::*)[1] | /r/namespace::*) - count(/r/namespace::*)",
     "count((//c/@* | //c/namespace::*)[1] | //c/namespace::*) - count(//c/namespace::*)",
     "count((/r/@* | /r/namespace::*)[last()] | /r/@*) - count(/r/@*)",
+    "count(//namespace::*)", "count(/r/namespace::*)", "count(//d/namespace::* | //e/namespace::*)",
+    "//r/following::node()", "(//node())[last()]/preceding::*[1]",
 ];
 
 /// id -> (structural path, pre-order index), computed by walking child_nodes()/attributes()
@@ -445,6 +450,13 @@ pub fn record(args: &[String]) -> i32 {
         writeln!(out, "{}", json!({"event": "reset", "history": h})).unwrap();
         let mut pre = w.project();
         let mut hist: Vec<J> = vec![];
+        // every third history: a namespace declaration reaches the document element the long way round (attribute node
+        // created, valued, the document looked at, then attached) - not a pool node: attributes() does not list declarations
+        if !with_c15 && !merged && h % 3 == 1 {
+            ns_prelude(&w);
+            writeln!(out, "{}", json!({"event": "prelude"})).unwrap();
+            pre = w.project();
+        }
         let mut live_ctx = xml_xpath::eval::model::Context::default();
         // every second history opens with a scripted prefix that a random writer meets too rarely: a node replaced by
         // its look-alike (same kind, same name / data, another node), then the random calls take over
@@ -510,6 +522,20 @@ pub fn record(args: &[String]) -> i32 {
     0
 }
 
+/// a namespace declaration attached to the document element the long way round (see record)
+fn ns_prelude(w: &World) {
+    use xml_dom::{AttrMut, Document, DocumentMut, ElementMut};
+    if let XmlNode::Document(d) = w.node(1).clone() {
+        let _ = guarded(|| {
+            if let (Ok(a), Ok(r)) = (d.create_attribute("xmlns:n"), d.document_element()) {
+                let _ = a.set_value("w");
+                let _ = w.project();
+                let _ = r.set_attribute_node(a);
+            }
+        });
+    }
+}
+
 /// Re-run a stored case {pool, event{hist?, call}} or {pool, calls[], event}: rebuild the world, apply the
 /// history, apply the call, log the event.
 pub fn rerun(args: &[String]) -> i32 {
@@ -533,6 +559,9 @@ pub fn rerun(args: &[String]) -> i32 {
         watchdog_start(wd, 20, arg_flag(args, "--sync"));
     }
     heartbeat(|| json!({"event": "crash", "call": ev["call"], "calls": hist}).to_string());
+    if case["prelude"] == true {
+        ns_prelude(&w);
+    }
     let mut live_ctx = xml_xpath::eval::model::Context::default();
     let mut before = w.project();
     let calls = hist.as_array().cloned().unwrap_or_default();
